@@ -67,7 +67,9 @@ async fn serve(sock: Arc<UdpSocket>, table: Arc<Mutex<HashMap<String, Vec<Ipv4Ad
         resp.extend_from_slice(&msg[12..qend + 4]);
         for a in answers {
             resp.extend_from_slice(&[0xC0, 0x0C, 0, 1, 0, 1]);
-            resp.extend_from_slice(&60u32.to_be_bytes());
+            // TTL 0: the resolver library keeps nothing in its own cache, so the only cache between a
+            // request and this server is the one under test (whose age hook H7 can move)
+            resp.extend_from_slice(&0u32.to_be_bytes());
             resp.extend_from_slice(&4u16.to_be_bytes());
             resp.extend_from_slice(&a.octets());
         }
